@@ -108,6 +108,8 @@ R.contract("Node.close_connection_socket", params={"self": "Node", "conn": "Peer
                     ("registered-socket-closed-and-workers-stopped",
                      "implies(old(conn.ident in self.peer_sockets), old(self.peer_sockets[conn.ident]).closed and "
                      "conn.state == %d and workers_stopped(conn))" % CLOSED),
+                    ("unregistered-connection-keeps-its-state",
+                     "implies(not old(conn.ident in self.peer_sockets), conn.state == old(conn.state))"),
                     ("pending-answers-dropped", "not (conn.host_identity in self._peer_waiting_answer)")],
            modifies=["conn.state", "conn._read_thread.stopped", "conn._write_thread.stopped", "*Socket.closed",
                      "dict:self.connections", "dict:self.peer_sockets", "dict:self.socket_peers",
